@@ -151,6 +151,49 @@ Theorem C20_decrypt_never_panics_refuted :
 Proof. exact (ex_intro _ panic_file decrypt_panics). Qed.
 Print Assumptions C20_decrypt_never_panics_refuted.
 
+(* 4. Unlocking as a history (keystore.go Unlock / TimedUnlock / Lock / Update / Export /
+      Delete / SignHash, SignTx): the lock-state machine ks_step of KeystoreModel.v, tied to the
+      KeyStore by random operation histories on every run.  For EVERY history ops from
+      any state: an operation given a passphrase other than its account's is an error
+      and leaves the whole state (lock states, passphrases, clock) unchanged; one given
+      the right passphrase succeeds; signing succeeds exactly on unlocked accounts; and,
+      from a fresh KeyStore, an account that can sign was unlocked earlier in the
+      history by an Unlock / TimedUnlock carrying its then-current passphrase. *)
+Theorem C20_wrong_passphrase_never_changes_state :
+  forall (s0 : ks_state) (ops : list ks_op) (op : ks_op),
+    let s := fst (ks_run s0 ops) in
+    wrong_passphrase s op -> ks_step s op = (s, false).
+Proof. exact wrong_passphrase_never_changes_state. Qed.
+Print Assumptions C20_wrong_passphrase_never_changes_state.
+
+Theorem C20_right_passphrase_succeeds :
+  forall (s0 : ks_state) (ops : list ks_op) (op : ks_op),
+    right_passphrase (fst (ks_run s0 ops)) op -> snd (ks_step (fst (ks_run s0 ops)) op) = true.
+Proof. exact right_passphrase_succeeds. Qed.
+Print Assumptions C20_right_passphrase_succeeds.
+
+Theorem C20_sign_iff_unlocked :
+  forall (s : ks_state) (i : nat) (a : acct),
+    nth_error (ks_accts s) i = Some a -> ks_step s (OSign i) = (s, is_unlocked (ks_now s) a).
+Proof. exact sign_iff_unlocked. Qed.
+Print Assumptions C20_sign_iff_unlocked.
+
+Theorem C20_unlocked_only_by_right_passphrase :
+  forall (ops : list ks_op) (i : nat) (a : acct),
+    let s := fst (ks_run ks_init ops) in
+    nth_error (ks_accts s) i = Some a -> is_unlocked (ks_now s) a = true -> granted ks_init ops i = true.
+Proof. exact unlocked_only_by_right_passphrase. Qed.
+Print Assumptions C20_unlocked_only_by_right_passphrase.
+
+(* non-vacuity: a history with a right unlock, wrong attempts while unlocked, lock, timed unlock and expiry *)
+Example C20_history_example :
+  let p := [x61] in let w := [x62] in
+  snd (ks_run ks_init [OCreate p; OTimedUnlock 0 w 0; OTimedUnlock 0 p 0; OTimedUnlock 0 w 0; OSign 0;
+                       OLock 0; OSign 0; OTimedUnlock 0 p 10; OSign 0; OWait 20; OSign 0])
+  = [true; false; true; false; true; true; false; true; true; true; false] /\
+  wrong_passphrase (fst (ks_run ks_init [OCreate p; OTimedUnlock 0 p 0])) (OTimedUnlock 0 w 0).
+Proof. split; [vm_compute; reflexivity|]. exists 0%nat, [x62]. split; reflexivity. Qed.
+
 (* Non-vacuity: the recorded file is what the model's EncryptKey produces from
    the recorded primitive answers (so the hypotheses of 1-3 are met by a real
    case), and it round-trips. *)
